@@ -54,6 +54,7 @@ func handWorld() *gen.World {
 
 type c02Case struct {
 	WorldSeed int64      `json:"world_seed"`
+	Domain    string     `json:"world_domain,omitempty"` // "" = inD01, "inputs" = string fields taking filter: [FilterIn!]
 	OpSeed    int64      `json:"op_seed"`
 	Op        *gen.GenOp `json:"operation,omitempty"`
 	Hand      bool       `json:"hand_world,omitempty"`
@@ -137,7 +138,11 @@ func driveC02(seed int64, tier, out, replay string) {
 		for i := 0; i < nWorlds; i++ {
 			ws := rng.Int63()
 			for j := 0; j < per; j++ {
-				cases = append(cases, c02Case{WorldSeed: ws, OpSeed: rng.Int63()})
+				c := c02Case{WorldSeed: ws, OpSeed: rng.Int63()}
+				if i%3 == 1 {
+					c.Domain = "inputs"
+				}
+				cases = append(cases, c)
 			}
 		}
 	}
@@ -165,22 +170,27 @@ func driveC02(seed int64, tier, out, replay string) {
 	}
 	var coq []string
 	distinct := map[string]bool{}
-	rigs := map[int64]*Rig{}
+	rigs := map[string]*Rig{}
 	idx := 0
 	for _, c := range cases {
 		var r *Rig
 		if c.Hand {
 			r = hand
 		} else {
+			dom := c.Domain
+			if dom == "" {
+				dom = "inD01"
+			}
 			var ok bool
-			r, ok = rigs[c.WorldSeed]
+			rk := fmt.Sprint(c.WorldSeed, dom)
+			r, ok = rigs[rk]
 			if !ok {
 				var err error
-				r, err = NewRig(worldFor(c.WorldSeed, "inD01"), RigConfig{})
+				r, err = NewRig(worldFor(c.WorldSeed, dom), RigConfig{})
 				if err != nil {
 					r = nil
 				}
-				rigs[c.WorldSeed] = r
+				rigs[rk] = r
 			}
 		}
 		if r == nil {
@@ -216,6 +226,11 @@ func driveC02(seed int64, tier, out, replay string) {
 		obs.Count(fmt.Sprintf("steps_%d", len(lines)))
 		if len(op.Variables) > 0 {
 			obs.Count("with_client_variables")
+		}
+		for _, f := range op.Features {
+			if strings.HasPrefix(f, "input_object") || strings.HasPrefix(f, "variable_inside") {
+				obs.Count("op_" + f)
+			}
 		}
 		if len(lines) >= 2 {
 			distinct[fmt.Sprint(c.WorldSeed, op.Query)] = true
